@@ -253,6 +253,12 @@ EXHAUSTIVE_TEMPLATES = [
     " (setup create:t1 ins:t1:1) (actors (ins:t1:5 cnt:t1) (ins:t1:6)) (sched ) (rng 0) (sticky 0) (script ))",
     "(case e3 (gate cmd.begin db.bound txn.lock.begin txn.pinned vm.commit.begin vm.committed ddl.drop.applied)"
     " (setup create:t1 ins:t1:1) (actors (ins:t1:5) (drop:t1)) (sched ) (rng 0) (sticky 0) (script ))",
+    # three overlapping DELETE sessions on rows of one row-set: {scan pin, lock, commit} interleavings
+    "(case e4 (gate txn.pinned vm.commit.begin)"
+    " (setup create:t1 ins:t1:1+2+3) (actors (del:t1:eq:1) (del:t1:eq:2) (del:t1:eq:1)) (sched ) (rng 0) (sticky 0) (script ))",
+    # four deleters, two pairs of overlapping targets
+    "(case e5 (gate txn.pinned vm.commit.begin)"
+    " (setup create:t1 ins:t1:1+2+3) (actors (del:t1:eq:1) (del:t1:eq:2) (del:t1:eq:1) (del:t1:eq:2)) (sched ) (rng 0) (sticky 0) (script ))",
 ]
 
 
